@@ -320,6 +320,7 @@ func parseEnvSx(x *sx) (*typeEnv, error) {
 		t.rt = reflect.StructOf(sf)
 		e.structs[id] = t
 		e.order = append(e.order, id)
+		dynTypes[t.rt] = t
 	}
 	return e, nil
 }
